@@ -29,7 +29,7 @@ CHECKS.update({
     "C20": ("exploration",
             "model-based stateful property testing with invariant checks after every step",
             "Generated tiered histories with capacities {1,2,5}, hard limits {1,2,4}, index capacities {4,6,16,1000}, every strategy: cache sizes <= capacity after every operation and sweep, recent-write tier <= hard limit whenever an insert returns, and full read sweeps equal the reference model (evicted/drained content stays readable). Plus direct operation sequences on VectorCache / QueryHashCache / SemanticAdapter.",
-            "AbTestSplitter owns two caches, bound 2 x capacity. Sampled histories.",
+            "AbTestSplitter owns two caches, bound 2 x capacity. Sampled histories. Part race (scheduler engine): the recent-write tier filled exactly to its hard limit {1,2,5}, one thread inserting 1-2 new ids against one thread running delete / batch delete / filtered delete / drain / reads, every single-preemption schedule; the tier size is read by the inserting thread right after each insert returns.",
             "DESIGN.md §3 C20"),
 })
 
@@ -70,7 +70,7 @@ CHECKS.update({
 CHECKS.update({
     "C08": ("exploration",
             "schedule enumeration and generation at lock granularity (patched parking_lot + controlled scheduler): complete single-preemption enumeration over all ordered operation pairs, generated multi-preemption schedules; deadlock candidates confirmed with the real blocking lock primitives",
-            "Part pairs: every ORDERED pair of a 22-operation catalogue (insert new / overwrite hot / overwrite cold, delete hot / cold, point read, read with metadata, bulk read, search, cached search, batch search, metadata update, drain, snapshot, engine / hot-tier / cache statistics, batch delete, filtered delete, bulk load, exists, filter ids) on a pre-populated persistent TieredEngine (snapshot interval 3, rotation at 300 bytes) x cache strategy x engine shape x EVERY scheduling decision of the non-preemptive run at which the other thread could be chosen (complete at preemption bound 1; blocking switches are free): ~37k schedules in the quick tier. Part schedules: 2-3 threads x 1-3 operations x 1-4 generated preemptions x 5 cache strategies x 3 engine shapes. Oracle: all threads finish; a state with no runnable thread is re-tried by every parked thread with the real timed blocking acquisition at the same time and reported only if all time out.",
+            "Part pairs: every ORDERED pair of a 24-operation catalogue (insert new / overwrite hot / overwrite cold, delete hot / cold, point read, read with metadata, bulk read, search, cached search, batch search, metadata update, drain, snapshot, engine / hot-tier / cache statistics, batch delete, filtered delete, bulk load, exists, filter ids, and filter ids / filtered delete with a filter the index cannot compile) on a pre-populated persistent TieredEngine (snapshot interval 3, rotation at 300 bytes) x cache strategy x engine shape x EVERY scheduling decision of the non-preemptive run at which the other thread could be chosen (complete at preemption bound 1; blocking switches are free): ~37k schedules in the quick tier. Part schedules: 2-3 threads x 1-3 operations x 1-4 generated preemptions x 5 cache strategies x 3 engine shapes. Oracle: all threads finish; a state with no runnable thread is re-tried by every parked thread with the real timed blocking acquisition at the same time and reported only if all time out.",
             "Scheduling points are lock acquisitions, releases and API-call boundaries; code between two lock operations runs un-interleaved. Writer preference of parking_lot's RwLock (a waiting writer blocks new readers) is modelled and confirmed on the real lock. tokio spawn_blocking workers (timed search) and rayon workers are not controlled. Preemption bound 2+ is sampled, not enumerated.",
             "DESIGN.md §3 C08, §2.5"),
 })
@@ -78,7 +78,7 @@ CHECKS.update({
 CHECKS.update({
     "C05": ("exploration",
             "schedule enumeration and generation at lock granularity (patched parking_lot + controlled scheduler) with a linearizability checker (exhaustive memoised Wing-Gong search per document) over the recorded call/return history",
-            "2-3 client threads run programs of write / overwrite / delete / batch delete / point read / read with metadata / bulk read / metadata read / exists / drain / search on two shared ids (one mirrored in the recent-write tier, one canonical-only with a warm L1a entry); every write carries a unique version in the vector AND the metadata. Part pairs: every ordered pair of single-operation programs (and the same pair preceded by a fresh write) on each id x 5 cache strategies x 3 engine shapes x EVERY single-preemption schedule (complete at bound 1; ~210k schedules). Part programs: generated programs x 1-4 generated preemptions. Oracles: a linearization exists per id (real-time order respected, reads return the latest write or absent), no read returns a version that was not written, vector and metadata of one read carry the same version; quiescent reads before and after a quiescent drain are appended to every history.",
+            "2-3 client threads run programs of write / overwrite / delete / batch delete / point read / read with metadata / bulk read / metadata read / exists / drain / search on two shared ids (one mirrored in the recent-write tier, one canonical-only with a warm L1a entry); every write carries a unique version in the vector AND the metadata (plus same-vector writes whose version is in the metadata only, indistinguishable by vector digest). Part pairs: every ordered pair of single-operation programs (and the same pair preceded by a fresh write) on each id x 5 cache strategies x 3 engine shapes x EVERY single-preemption schedule (complete at bound 1; ~210k schedules). Part programs: generated programs x 1-4 generated preemptions. Oracles: a linearization exists per id (real-time order respected, reads return the latest write or absent), no read returns a version that was not written, vector and metadata of one read carry the same version; quiescent reads before and after a quiescent drain are appended to every history.",
             "Scheduling points are lock operations and API-call boundaries: races on atomics between two lock operations are not interleaved. A delete's `existed` flag is not judged (the property constrains reads); writes returning Err may or may not take effect. Engine-level API (TieredEngine); the server's Query handler, which also assembles metadata and vector from two calls, is not driven under the scheduler.",
             "DESIGN.md §3 C05, §2.5"),
 })
